@@ -21,7 +21,7 @@ use vcore::*;
 // =====================================================================================
 
 const STRIDE: usize = 5;
-const N_OPS: u64 = 158;
+const N_OPS: u64 = 171;
 
 fn op_strategy() -> BoxedStrategy<[u64; STRIDE]> {
     (0..N_OPS, 0u64..4, 0u64..4, 0u64..4, prop_oneof![2 => limb(), 1 => 0u64..600, 1 => any::<u64>()])
@@ -412,7 +412,29 @@ fn produce<const B: usize, const L: usize, const B2: usize, const L2: usize>(
         154 => some!("PrimInt::unsigned_shl", <U<B, L> as num_traits::PrimInt>::unsigned_shl(x, imm as u32 % (B as u32 + 70))),
         155 => some!("PrimInt::unsigned_shr", <U<B, L> as num_traits::PrimInt>::unsigned_shr(x, imm as u32 % (B as u32 + 70))),
         156 => some!("PrimInt::pow", <U<B, L> as num_traits::PrimInt>::pow(x, imm as u32 % 70)),
-        _ => some!("FromBytes::from_be_bytes", <U<B, L> as num_traits::FromBytes>::from_be_bytes(&num_traits::ToBytes::to_le_bytes(&x))),
+        157 => some!("FromBytes::from_be_bytes", <U<B, L> as num_traits::FromBytes>::from_be_bytes(&num_traits::ToBytes::to_le_bytes(&x))),
+        // num-integer surface (added after seeded round 10: `Integer::inc` rewritten on raw limbs)
+        158 => {
+            let mut t = x;
+            num_integer::Integer::inc(&mut t);
+            some!("Integer::inc", t)
+        }
+        159 => {
+            let mut t = x;
+            num_integer::Integer::dec(&mut t);
+            some!("Integer::dec", t)
+        }
+        160 => some!("Integer::div_floor", num_integer::Integer::div_floor(&x, &y)),
+        161 => some!("Integer::mod_floor", num_integer::Integer::mod_floor(&x, &y)),
+        162 => some!("Integer::gcd", num_integer::Integer::gcd(&x, &y)),
+        163 => some!("Integer::lcm", num_integer::Integer::lcm(&x, &y)),
+        164 => some!("Integer::div_ceil", num_integer::Integer::div_ceil(&x, &y)),
+        165 => some!("Integer::div_mod_floor.1", num_integer::Integer::div_mod_floor(&x, &y).1),
+        166 => some!("Integer::extended_gcd.x", num_integer::Integer::extended_gcd(&x, &y).x),
+        167 => some!("Integer::extended_gcd.y", num_integer::Integer::extended_gcd(&x, &y).y),
+        168 => some!("Integer::next_multiple_of", num_integer::Integer::next_multiple_of(&x, &y)),
+        169 => some!("Integer::prev_multiple_of", num_integer::Integer::prev_multiple_of(&x, &y)),
+        _ => some!("Integer::gcd_lcm.1", num_integer::Integer::gcd_lcm(&x, &y).1),
     }
 }
 
@@ -868,7 +890,7 @@ fn main() {
     }
     let spec = PropSpec {
         id: "C04",
-        rule_text: "Part A: register machine with 4 registers of Uint<BITS> and 2 of a second width; histories = 1..39 steps drawn from a catalogue of 158 safe public producers (constants; from_limbs / from_limbs_slice and its checked / wrapping / overflowing / saturating forms incl. out-of-range and over-long limb vectors; conversions from u64/i64/u128/i128/f64/f32 and other-width Uints; byte, string, digit decoders on generated inputs; all arithmetic, bit, shift, rotate, modular, gcd, pow, root operations; set_bit incl. out-of-range indices; rand 0.8 / 0.9 with seeded RNGs, random() and randomize() on the thread-local RNG (checked, never stored), arbitrary over generated bytes, proptest any() incl. shrunk values, quickcheck; serde_json, bincode, rlp, alloy-rlp, SCALE fixed/compact, SSZ, borsh, DER decoders fed encodings of the other-width registers; num-traits constructors and the PrimInt byte-order / bit / shift / pow methods; BigUint/BigInt conversions; Sum/Product; Bits wrapper). A step that panics leaves the registers unchanged. Invariant after every step: every register canonical (bits >= BITS zero, read through as_limbs), and for every register pair ==, Hash (SipHash, fixed keys), cmp, partial_cmp, <, <=, >, >=, min, max, is_zero agree with the integers. Width pairs include 1088 and 2112 bits (17 and 33 limbs). Exhaustive for BITS in {1,2,3,5,6}: all (a,b) pairs x every producer. Non-trivial history: non-aligned width and some step produced a value with bit BITS-1 set or was handed out-of-range input. Part B: generated programs for every ill-formed (BITS,LIMBS) in {0,1,63,64,65,128,129} x {0,1,2,3} x a catalogue of 60 constants/constructors; each obtains the value and dumps its raw memory without calling another Uint method; a compile error or run-time panic is correct, printing OBTAINED is a violation; every catalogue entry has control twins (well-formed LIMBS at 64 and 129 bits) that must print OBTAINED. Part C: programs that write a non-canonical limb through Uint::as_limbs_mut, Uint::as_le_slice_mut and Bits::as_limbs_mut without an `unsafe` block must be rejected by the compiler (twins with the block are the controls). Part D: in the feature configuration [std, rand] without rand-09 (second probe package) the rand-0.8 inherent generators randomize_with, random_with, Rng::gen, Rng::sample on an all-ones generator and random(), randomize() OR-ed over 64 thread-RNG draws must hand out canonical values at 7, 63, 64, 65 and 100 bits.",
+        rule_text: "Part A: register machine with 4 registers of Uint<BITS> and 2 of a second width; histories = 1..39 steps drawn from a catalogue of 171 safe public producers (constants; from_limbs / from_limbs_slice and its checked / wrapping / overflowing / saturating forms incl. out-of-range and over-long limb vectors; conversions from u64/i64/u128/i128/f64/f32 and other-width Uints; byte, string, digit decoders on generated inputs; all arithmetic, bit, shift, rotate, modular, gcd, pow, root operations; set_bit incl. out-of-range indices; rand 0.8 / 0.9 with seeded RNGs, random() and randomize() on the thread-local RNG (checked, never stored), arbitrary over generated bytes, proptest any() incl. shrunk values, quickcheck; serde_json, bincode, rlp, alloy-rlp, SCALE fixed/compact, SSZ, borsh, DER decoders fed encodings of the other-width registers; num-traits constructors and the PrimInt byte-order / bit / shift / pow methods; the num-integer Integer methods (inc, dec, floor / ceil division, gcd, lcm, extended_gcd, next / prev multiple); BigUint/BigInt conversions; Sum/Product; Bits wrapper). A step that panics leaves the registers unchanged. Invariant after every step: every register canonical (bits >= BITS zero, read through as_limbs), and for every register pair ==, Hash (SipHash, fixed keys), cmp, partial_cmp, <, <=, >, >=, min, max, is_zero agree with the integers. Width pairs include 1088 and 2112 bits (17 and 33 limbs). Exhaustive for BITS in {1,2,3,5,6}: all (a,b) pairs x every producer. Non-trivial history: non-aligned width and some step produced a value with bit BITS-1 set or was handed out-of-range input. Part B: generated programs for every ill-formed (BITS,LIMBS) in {0,1,63,64,65,128,129} x {0,1,2,3} x a catalogue of 60 constants/constructors; each obtains the value and dumps its raw memory without calling another Uint method; a compile error or run-time panic is correct, printing OBTAINED is a violation; every catalogue entry has control twins (well-formed LIMBS at 64 and 129 bits) that must print OBTAINED. Part C: programs that write a non-canonical limb through Uint::as_limbs_mut, Uint::as_le_slice_mut and Bits::as_limbs_mut without an `unsafe` block must be rejected by the compiler (twins with the block are the controls). Part D: in the feature configuration [std, rand] without rand-09 (second probe package) the rand-0.8 inherent generators randomize_with, random_with, Rng::gen, Rng::sample on an all-ones generator and random(), randomize() OR-ed over 64 thread-RNG draws must hand out canonical values at 7, 63, 64, 65 and 100 bits.",
         assumptions: vec![
             "Part A keeps no model of the operations' semantics: it can only alarm about the invariant",
             "quickcheck::Gen cannot be seeded: its values are checked but not reproducible from the seed (failing values are saved in the replay file)",
